@@ -473,6 +473,8 @@ pub struct WriteRunStats {
     pub reopen_checks: u64,
     /// flush returned Ok but the raw bytes could not be opened / the stream not be read
     pub reopen_problems: Vec<String>,
+    /// value of the write-side call counter at the start of every API call attempt
+    pub op_starts: Vec<u64>,
     pub durable_checks: u64,
     pub durable_unreadable: u64,
 }
@@ -523,6 +525,7 @@ pub fn run_write_script(version: u8, max_buf: Option<u32>, script: &[WOp], ctl: 
         // each op may be tried twice: once as is, and once more (faults have fired by then)
         for attempt in 0..2 {
             let l = label(ctl);
+            st.op_starts.push(ctl.lock().unwrap().domain_seq);
             // result: Ok(()) / Err(io) of the API call, or None if the op was skipped
             let mut flush_ok_slot: Option<usize> = None;
             // a growing set_len that returned Err: (stream name index, length before)
